@@ -1,5 +1,5 @@
 '''C04 - re-running re-executes exactly the out-of-date tasks.'''
-from ..rules import sched_rel, sched_worker, persist
+from ..rules import sched_rel, sched_worker, persist, patterns
 
 ID = 'C04'
 CLAIM = '''
@@ -43,10 +43,16 @@ def check(ctx):
     ctx.run(sched_rel.check_graph_whole)
     ctx.run(sched_rel.check_graph_rebound)
     ctx.run(sched_rel.check_decision_inputs)
+    ctx.run(patterns.check_patterns, ID)
 
 
 from ..variants import sched as _v   # noqa: E402
 
 
-def variants(program):
+def _variants(program):
     return _v.variants(program, ID)
+
+
+def variants(program):
+    from ..variants import patterns as _pv
+    return list(_variants(program)) + _pv.variants(program, ID)
